@@ -102,6 +102,9 @@ def gen_plan(rng, opts, spec, faults, idx):
         else:
             kind = rng.choice(['conv', 'conv', 'conv', 'conv', 'partial', 'move']) if k > m + 1 else 'conv'
         passes.append({'a': 'delta', 'd': gen_deltas(rng, opts['tol'], n_endo, kind)})
+    if rng.random() < 0.12 and passes:
+        kk = rng.randrange(len(passes))
+        passes[kk] = {'a': 'npunder', 'j': rng.randrange(n_endo), 'v': rng.choice(DYADS), 'd': passes[kk].get('d', [0.0] * n_endo)}
     plan = {'passes': passes}
     if rng.random() < 0.25 and spec['exo']:
         plan['before'] = {'a': 'setx', 'name': rng.choice(spec['exo']), 'v': rng.choice(DYADS)}
@@ -214,6 +217,8 @@ def generate(rng, idx, tier, variant):
             ops.append({'op': 'copy', 'obj': who, 'route': rng.choice(['copy', 'deepcopy'])})
         elif r < 0.42:
             ops.append({'op': 'add_variable', 'obj': who, 'name': f'N{len(ops)}', 'v': rng.choice(DYADS)})
+        elif r < 0.55:
+            ops.append({'op': 'eval', 'obj': who, 'expr': rng.choice(['{a} + 1', '{a} * {b}', '{a}[0] + nosuchname', '1 / ({a} - {a})', 'log({a} * 0)', '{a}[', 'lag({a})']), 'a': rng.choice(names), 'b': rng.choice(names), 'warnings_': rng.choice(['ignore', 'always', 'error'])})
     return {'spec': spec, 'ops': ops}
 
 
@@ -242,7 +247,7 @@ def gen_parser_schedule(rng, idx, tier):
             # data corruption: a value that makes an equation divide by zero / log a non-positive number / overflow
             nm = rng.choice(prog['names'])
             pos = max(0, min(n - 1, tn + rng.choice([0, 0, -1, 1, -lags, leads])))
-            ops.append({'op': 'poke', 'name': nm, 'pos': pos, 'v': rng.choice([0.0, -1.0, 1e308, -1e308, 'nan', 'inf', 750.0])})
+            ops.append({'op': 'poke', 'name': nm, 'pos': pos, 'v': rng.choice([0.0, -1.0, 1e308, -1e308, 'nan', 'inf', 750.0, -800.0, 1e-200])})
         ops.append({'op': 'solve_period' if rng.random() < 0.3 else 'solve_t', 't': t, 'form': rng.choice([0, 1]), 'opts': opts, 'plan': {}})
     return {'spec': spec, 'ops': ops}
 
@@ -412,6 +417,21 @@ def execute(schedule, ctx):
             ctx.probe('history:add_variable')
             ctx.log(step, 'add_variable')
             ctx.outcome('add_variable', 'ok')
+            continue
+        if op['op'] == 'eval':
+            # an unrelated container facility used between solves (it installs its own warning filter while it runs)
+            expr = op['expr'].replace('{a}', op['a']).replace('{b}', op['b'])
+            import warnings as _w
+
+            try:
+                with _w.catch_warnings(record=True):  # keep 'always' warnings off stderr
+                    m.eval(expr, warnings_=op['warnings_'])
+                res = 'ok'
+            except Exception as e:
+                res = type(e).__name__
+            ctx.probe('history:eval:' + ('raised' if res != 'ok' else 'ok'))
+            ctx.log(step, 'eval', res)
+            ctx.outcome('eval', res)
             continue
         if op['op'] == 'poke':
             if op['name'] in m.__dict__['index'] and 0 <= op['pos'] < n:
